@@ -574,7 +574,7 @@ def _is_m110(data):
 
 def run_direct(stmts, acks, status=None, late_hs=False, settle=0.02, do_disconnect=True, readings=False,
                deadline=2.5, mode="serial", lose_at=0, slow=None, lose_idle_after=0, instant=(), idle_lines=None, fail_write_at=0,
-               reconnect_before=()):
+               reconnect_before=(), boot_reply=None):
     """Drive the real SerialWriter/PrintrunWriter. stmts: list of bytes handed to write(); acks: the reply line
     (bytes) the device gives to each statement; status: {k: [lines pushed before the ack of statement k]};
     late_hs: the ok of the second start-up M110 is released only after the first write() began."""
@@ -612,10 +612,18 @@ def run_direct(stmts, acks, status=None, late_hs=False, settle=0.02, do_disconne
                     nm = len([x for x in txs if _is_m110(x["text"]) and x.get("answered")])
                     if late_hs and _is_m110(t) and nm == 2:
                         held.append(OK)
+                    elif boot_reply and t.startswith(b"G4 P0") and not boot_said:
+                        # the line that brings the host online is itself a report (added after seed C18h: e.g. an auto-report
+                        # or "ok T:.. B:.." answering the probe); its readings count like any other's
+                        boot_said.append(True)
+                        line = bytes(boot_reply)
+                        hub.released.append((line, {"k": "rel", "text": list(line), "hs": True}))
+                        hub.cv.notify_all()
                     else:
                         hub.released.append((OK, {"k": "rel", "text": list(OK), "hs": True}))
                         hub.cv.notify_all()
 
+    boot_said = []
     instant = set(instant or ())
     answered = set()
     failed = set()
